@@ -84,6 +84,13 @@ Theorem C19_counter_argument_exact :
   if (int_min <=? v)%Z && (v <=? int_max)%Z then Some v else None.
 Proof. exact parse_counter_exact. Qed.
 
+(* between the command line and the transformation nothing rewrites the counters (the manager only stores them and hands
+   them over), and no transformation's HandleTopLevelDecl stops the parse early - HandleTranslationUnit, where the protocol
+   clauses live, is always reached *)
+Theorem C19_counter_and_unit_reach_the_transformation :
+  Gen.ClangDelta.manager_counter_writes = [] /\ Gen.ClangDelta.unit_handler_stops = [].
+Proof. vm_compute. split; reflexivity. Qed.
+
 (* each transformation name is registered once *)
 Theorem C19_registrations_nodup :
   nodup_str (map (fun r => fst (fst r)) Gen.ClangDelta.registrations) = true.
